@@ -30,7 +30,7 @@ EXPLANATION = (
     "by construction at each of its definitions (constant <= 1, a ratio x/y under the guard x < y, min(x, y)/y, or a percentage of the "
     "state / 100 whose every writer keeps it <= 100) - so the gain is scaled down by no more than the crop's productivity factor. T-COLS: writer lists, column-name "
     "lists and array widths agree; state columns carry the field of the same name, flux columns the designated "
-    "return of the designated process. C06.c also: both seasonal counters are cleared on every path of the season reset; on the net-irrigation valuation no constant store to the net counter in transpiration is reachable. C06.f: the yearly CO2 concentration that enters the CO2-adjusted water productivity is interpolated from the user's table sorted by year (np.interp needs ascending years; an unsorted table is valid input). NOT decided: numeric equality of sums (follows from the identities by exact "
+    "return of the designated process. C06.c also: both seasonal counters are cleared on every path of the season reset; on the net-irrigation valuation no constant store to the net counter in transpiration is reachable. C06.f: the yearly CO2 concentration that enters the CO2-adjusted water productivity is interpolated from the user's table sorted by year (np.interp needs ascending years; an unsorted table is valid input). C06.g (= C08.c): the season reset rewrites the CO2 adjustment of the water productivity unconditionally on the season's own crop copy - the factor of the daily biomass gain WP x fCO2 x Tr/ET0 is the season's, not a stale copy's. NOT decided: numeric equality of sums (follows from the identities by exact "
     "arithmetic only).")
 
 IN_SEASON = {"growing_season is True": True, "growing_season is False": False}
@@ -693,6 +693,10 @@ def rule_e(chk, prog):
 
 
 def run(chk, prog, tier):
+    # C06.g = C08.c: the CO2 factor the daily biomass gain is scaled with is the season's own (rewritten unconditionally at every season start)
+    from .c08 import rule_c as co2_factor_rewritten
+    from ._alias import Alias
+    co2_factor_rewritten(Alias(chk, "C08.c", "C06.g"), prog)
     rule_a(chk, prog)
     rule_e(chk, prog)
     s, fs = rule_b(chk, prog)
